@@ -772,3 +772,133 @@ mutant("c20-accumulate-dict-memo", "C20", "itertools.py",
        "        async for head in item_iter:\n            value = await function(value, head)\n            yield value\n",
        "        memo = {}\n        async for head in item_iter:\n            value = await function(value, head)\n            memo[id(head)] = head\n            yield value\n",
        rule="R20.1", unit="itertools.accumulate")
+
+# --------------------------------------------------------------------------- C15
+mutant("c15-hoisted-recreate", "C15", "contextlib.py",
+       "        @wraps(func)\n        async def inner(*args: Any, **kwds: Any) -> Any:\n            async with self._recreate_cm():\n",
+       "        cm = self._recreate_cm()\n\n        @wraps(func)\n        async def inner(*args: Any, **kwds: Any) -> Any:\n            async with cm:\n",
+       rule="R15.1")
+mutant("c15-enter-self", "C15", "contextlib.py",
+       "            async with self._recreate_cm():\n", "            async with self:\n", rule="R15.1")
+mutant("c15-drops-kwargs", "C15", "contextlib.py",
+       "                return await func(*args, **kwds)\n", "                return await func(*args)\n", rule="R15.1")
+mutant("c15-swallows-errors", "C15", "contextlib.py",
+       "            async with self._recreate_cm():\n                return await func(*args, **kwds)\n",
+       "            try:\n                async with self._recreate_cm():\n                    return await func(*args, **kwds)\n            except Exception:\n                return None\n",
+       rule="R15.1")
+mutant("c15-result-dropped", "C15", "contextlib.py",
+       "                return await func(*args, **kwds)\n", "                await func(*args, **kwds)\n", rule="R15.1")
+mutant("c15-recreate-returns-self", "C15", "contextlib.py",
+       "    def _recreate_cm(self):\n        return type(self)(*self.__recreate_args)\n",
+       "    def _recreate_cm(self):\n        return self\n", rule="R15.2")
+mutant("c15-recreate-removed", "C15", "contextlib.py",
+       "    def _recreate_cm(self):\n        return type(self)(*self.__recreate_args)\n\n", "", rule="R15", optional=True)
+mutant("c15-shared-generator", "C15", "contextlib.py",
+       "        self.gen = func(*args, **kwds)\n        self.__recreate_args = func, args, kwds\n",
+       "        self.gen = func(*args, **kwds) if not isinstance(func, _AsyncGeneratorContextManager) else func.gen\n        self.__recreate_args = self, (), {}\n",
+       rule="R15.2")
+mutant("c15-contextmanager-caches-instance", "C15", "contextlib.py",
+       "    @wraps(func)\n    def helper(*args: Any, **kwds: Any) -> AsyncContextManager[T]:\n        return _AsyncGeneratorContextManager(func, args, kwds)\n",
+       "    cache: Any = {}\n\n    @wraps(func)\n    def helper(*args: Any, **kwds: Any) -> AsyncContextManager[T]:\n        if args not in cache:\n            cache[args] = _AsyncGeneratorContextManager(func, args, kwds)\n        return cache[args]\n",
+       rule="R15.3")
+
+# --------------------------------------------------------------------------- C16
+mutant("c16-stale-group-steps", "C16", "itertools.py",
+       "        if state.current_group is not self:\n            raise StopAsyncIteration\n        await state.maybe_step()\n",
+       "        await state.maybe_step()\n        if state.current_group is not self:\n            raise StopAsyncIteration\n",
+       rule="R16.1")
+mutant("c16-no-liveness-test", "C16", "itertools.py",
+       "        if state.current_group is not self:\n            raise StopAsyncIteration\n        await state.maybe_step()\n",
+       "        await state.maybe_step()\n", rule="R16.1")
+mutant("c16-invalidate-after-await", "C16", "itertools.py",
+       "        state.current_group = None\n        await state.maybe_step()\n        try:\n            target_key = state.target_key\n",
+       "        await state.maybe_step()\n        state.current_group = None\n        try:\n            target_key = state.target_key\n",
+       rule="R16.2")
+mutant("c16-group-not-installed", "C16", "itertools.py",
+       "        state.current_group = group = _Grouper(current_key, state)\n",
+       "        group = _Grouper(current_key, state)\n", rule="R16.2")
+mutant("c16-consume-any-key", "C16", "itertools.py",
+       "        if self._target_key != state.current_key:\n            raise StopAsyncIteration\n        return state.consume_value()\n",
+       "        return state.consume_value()\n", rule="R16.3")
+mutant("c16-no-scan", "C16", "itertools.py",
+       "            while state.current_key == target_key:\n                await state.step()\n",
+       "            if state.current_key == target_key:\n                await state.step()\n", rule="R16.3")
+mutant("c16-consume-keeps-item", "C16", "itertools.py",
+       "        value, self._current_value = self._current_value, self._sentinel\n        return value\n",
+       "        value = self._current_value\n        return value\n", rule="R16.3")
+mutant("c16-maybe-step-always", "C16", "itertools.py",
+       "        if self._current_value is self._sentinel:\n            await self.step()\n",
+       "        await self.step()\n", rule="R16.3")
+mutant("c16-step-publishes-early", "C16", "itertools.py",
+       "        value = await anext(self._iterator)\n        key = await self._key_func(value)\n        self._current_value, self.current_key = value, key\n",
+       "        value = await anext(self._iterator)\n        self._current_value = value\n        key = await self._key_func(value)\n        self.current_key = key\n",
+       rule="R16.3")
+mutant("c16-key-identity", "C16", "itertools.py",
+       "        if self._target_key != state.current_key:\n", "        if self._target_key is not state.current_key:\n", rule="R16")
+mutant("c16-scan-by-order", "C16", "itertools.py",
+       "            while state.current_key == target_key:\n", "            while not (target_key < state.current_key):\n", rule="R16")
+neutral("c16-liveness-positive-form", ["C16", "C04", "C06"], "itertools.py",
+        "        if state.current_group is not self:\n            raise StopAsyncIteration\n        await state.maybe_step()\n",
+        "        if state.current_group is self:\n            await state.maybe_step()\n        else:\n            raise StopAsyncIteration\n")
+
+# --------------------------------------------------------------------------- C19
+mutant("c19-await-each-gathers", "C19", "asynctools.py",
+       "    for awaitable in awaitables:\n        yield await awaitable\n",
+       "    results = [await awaitable for awaitable in awaitables]\n    for result in results:\n        yield result\n",
+       rule="R19.1")
+mutant("c19-await-each-prefetch", "C19", "asynctools.py",
+       "    for awaitable in awaitables:\n        yield await awaitable\n",
+       "    pending = None\n    for awaitable in awaitables:\n        if pending is not None:\n            yield pending[0]\n        pending = (await awaitable,)\n    if pending is not None:\n        yield pending[0]\n",
+       rule="R19.1")
+mutant("c19-any-iter-sync-branch-no-await", "C19", "asynctools.py",
+       "        for item in iterable:\n            yield (\n                item if not isinstance(item, Awaitable) else await item\n            )  # pyright: ignore[reportReturnType]\n",
+       "        for item in iterable:\n            yield item  # pyright: ignore[reportReturnType]\n", rule="R19.2")
+mutant("c19-any-iter-outer-not-awaited", "C19", "asynctools.py",
+       "    iterable = __iter if not isinstance(__iter, Awaitable) else await __iter\n",
+       "    iterable = __iter\n", rule="R19.2")
+mutant("c19-apply-skips-kwargs", "C19", "asynctools.py",
+       "        *[await arg for arg in args], **{k: await arg for k, arg in kwargs.items()}\n",
+       "        *[await arg for arg in args], **kwargs\n", rule="R19.3")
+mutant("c19-apply-reversed", "C19", "asynctools.py",
+       "        *[await arg for arg in args], **{k: await arg for k, arg in kwargs.items()}\n",
+       "        *[await arg for arg in reversed(args)][::-1], **{k: await arg for k, arg in kwargs.items()}\n", rule="R19.3")
+mutant("c19-sync-wraps-coroutine-functions", "C19", "asynctools.py",
+       "    if iscoroutinefunction(function):\n        return function\n\n    @wraps(function)",
+       "    @wraps(function)", rule="R19.4")
+mutant("c19-sync-always-awaits", "C19", "asynctools.py",
+       "        if isinstance(result, Awaitable):\n            return await result  # pyright: ignore[reportUnknownVariableType]\n        return result\n",
+       "        return await result\n", rule="R19.4")
+mutant("c19-sync-swallows", "C19", "asynctools.py",
+       "        result = function(*args, **kwargs)\n        if isinstance(result, Awaitable):\n",
+       "        try:\n            result = function(*args, **kwargs)\n        except Exception as exc:\n            result = exc\n        if isinstance(result, Awaitable):\n",
+       rule="R19.4")
+
+# --------------------------------------------------------------------------- C18
+mutant("c18-enumerate-no-scope", "C18", "builtins.py", SCOPED_ENUM_OLD,
+       "    count = start\n    async for item in aiter(iterable):\n        yield count, item\n        count += 1\n",
+       rule="R18.1", unit="builtins.enumerate")
+mutant("c18-merge-heap-before-try", "C18", "heapq.py",
+       "    try:\n        # sortable iterators with position to ensure stable sort for ties:\n        # for equal heads, the iterable given first is yielded first in either direction\n        iter_heap: \"list[tuple[_KeyIter[Any], int]]\" = [\n            (itr, idx)\n            async for idx, itr in a_enumerate(\n                _KeyIter[Any].from_iters(iterators, reverse, a_key)\n            )\n        ]\n        _heapq.heapify(iter_heap)\n",
+       "    iter_heap: \"list[tuple[_KeyIter[Any], int]]\" = [\n        (itr, idx)\n        async for idx, itr in a_enumerate(\n            _KeyIter[Any].from_iters(iterators, reverse, a_key)\n        )\n    ]\n    try:\n        _heapq.heapify(iter_heap)\n",
+       rule="R18.1", unit="heapq.merge")
+mutant("c18-tee-manual-lock", "C18", "itertools.py",
+       "                async with lock:\n                    # Another peer produced an item while we were waiting for the lock.\n                    # Proceed with the next loop iteration to yield the item.\n                    if buffer:\n                        continue\n                    try:\n                        item = await iterator.__anext__()\n                    except StopAsyncIteration:\n                        break\n                    else:\n                        # Append to all buffers, including our own. We'll fetch our\n                        # item from the buffer again, instead of yielding it directly.\n                        # This ensures the proper item ordering if any of our peers\n                        # are fetching items concurrently. They may have buffered their\n                        # item already.\n                        for peer_buffer in peers:\n                            peer_buffer.append(item)\n",
+       "                await lock.__aenter__()\n                if not buffer:\n                    try:\n                        item = await iterator.__anext__()\n                    except StopAsyncIteration:\n                        await lock.__aexit__(None, None, None)\n                        break\n                    else:\n                        for peer_buffer in peers:\n                            peer_buffer.append(item)\n                await lock.__aexit__(None, None, None)\n",
+       rule="R18.2", unit="itertools.tee_peer")
+mutant("c18-lru-store-on-cancel", "C18", "_lrucache.py",
+       "            self.__misses += 1\n            result = await self.__wrapped__(*args, **kwargs)\n            # function finished early for another call with the same arguments\n            # the cache has been updated already, do nothing to it\n            if key not in self.__cache:\n                self.__cache[key] = result\n            return result\n",
+       "            self.__misses += 1\n            try:\n                result = await self.__wrapped__(*args, **kwargs)\n            except BaseException:\n                self.__cache[key] = None\n                raise\n            if key not in self.__cache:\n                self.__cache[key] = result\n            return result\n",
+       rule="R18.3")
+mutant("c18-cached-property-publishes-on-cancel", "C18", "functools.py",
+       "        value = await self._func(self._instance)\n        self._instance.__dict__[self._name] = AwaitableValue(value)\n        return value\n",
+       "        value = None\n        try:\n            value = await self._func(self._instance)\n        finally:\n            self._instance.__dict__[self._name] = AwaitableValue(value)\n        return value\n",
+       rule="R18.3")
+mutant("c18-exitstack-except-exception", "C18", "contextlib.py",
+       "            except BaseException as exc:  # noqa: B036\n", "            except Exception as exc:  # noqa: B036\n",
+       rule="R18")
+mutant("c18-scopediter-swallows-cancel", "C18", "_core.py",
+       "        else:\n            await aclose\n", "        else:\n            await aclose\n        return exc_type is not None and exc_type.__name__ == 'CancelledError'\n",
+       rule="R18.5")
+mutant("c18-anext-catches-base", "C18", "builtins.py",
+       "        return await iterator.__anext__()\n    except StopAsyncIteration:\n",
+       "        return await iterator.__anext__()\n    except BaseException:\n", rule="R18.5")
